@@ -125,7 +125,7 @@ class Layout:
             else:
                 self.rels.append((ka, klen) + ex["key"] + (0,))
         self.exps.append(dict(sec=self.cur_sec, key=(ka, klen), pieces=pieces if vkind != "none" else None, line=self.line,
-                              cb=list(self.pending), ca=ca, first=first_idx))
+                              cb=list(self.pending), ca=ca, first=first_idx, quoted=vkind.startswith("quoted")))
         self.pending = []
         self.last_entry_line = self.line
         self.desc.append("entry(%s%s%s)" % (vkind, ",tail" if tail else "", ",dup" if first_idx != len(self.exps) - 1 else ""))
@@ -172,25 +172,30 @@ class Layout:
 
     # ---- output ----
     def concretize(self, keep):
-        """replace every class code not in `keep` by a representative literal of its class (keys and
-        section names stay symbolic when the layout relates spans by equality)"""
-        has_eq = any(r[4] for r in self.rels)
+        """replace every class code not in `keep` by a representative literal of its class; spans related by
+        equality get equal literals, all other positions get pairwise different literals"""
         reps_other = "0123456789ACDEFGIJLNOPQRTUYZ"   # never a class code letter
         nb_delim = [c for c in self.delim if c not in " \t"]
+        root = {}
+        for (a1, l1, a2, l2, eq) in self.rels:
+            if eq:
+                for i in range(l1): root[a1 + i] = root.get(a2 + i, a2 + i)
+        assigned = {}
         out = []
         for p, ch in enumerate(self.tpl):
-            if ch not in "KkVWvqcSsbBdhmnMx" or ch in keep or (has_eq and ch in "KkSs"):
+            if ch not in "KkVWvqcSsbBdhmnMx" or ch in keep:
                 out.append(ch); continue
             if ch in "bB": out.append(" " if (" " in self.delim or ch == "b") else "\t")
             elif ch == "d": out.append(nb_delim[0])
             elif ch == "h": out.append(self.comment[0])
             else:
-                r = reps_other[(p * 7) % len(reps_other)]
-                out.append(r)
+                r = root.get(p, p)
+                if r not in assigned: assigned[r] = reps_other[len(assigned) % len(reps_other)]
+                out.append(assigned[r])
         self.tpl = "".join(out)
         return self
 
-    def header(self, opts="", extra_defs=()):
+    def header(self, opts="", extra_defs=(), roundtrip=False):
         L = []
         n = len(self.tpl)
         L.append("#define FLEN %d" % n)
@@ -203,7 +208,7 @@ class Layout:
         L.append("struct span { short a, l; };")
         L.append("struct rel { short a1, l1, a2, l2; unsigned char equal; };")
         L.append("#define MAXP 4")
-        L.append("struct exp { short sec, key_a, key_l, nv; short va[MAXP], vl[MAXP]; short line, first, ncb; short cba[MAXP], cbl[MAXP]; short nca; short caa[MAXP], cal[MAXP]; };")
+        L.append("struct exp { short sec, key_a, key_l, nv; short va[MAXP], vl[MAXP]; short line, first, ncb; short cba[MAXP], cbl[MAXP]; short nca; short caa[MAXP], cal[MAXP]; short quoted; };")
         L.append("#define NEXP %d" % len(self.exps))
         rows = []
         for ex in self.exps:
@@ -212,15 +217,30 @@ class Layout:
             pp = (p or []) + [(0, 0)] * 4
             cb = ex["cb"] + [(0, 0)] * 4
             ca = ex["ca"] + [(0, 0)] * 4
-            rows.append("{%d,%d,%d,%d,{%s},{%s},%d,%d,%d,{%s},{%s},%d,{%s},{%s}}" % (
+            rows.append("{%d,%d,%d,%d,{%s},{%s},%d,%d,%d,{%s},{%s},%d,{%s},{%s},%d}" % (
                 ex["sec"], ex["key"][0], ex["key"][1], nv, ",".join(str(x[0]) for x in pp[:4]), ",".join(str(x[1]) for x in pp[:4]),
                 ex["line"], ex["first"], len(ex["cb"]), ",".join(str(x[0]) for x in cb[:4]), ",".join(str(x[1]) for x in cb[:4]),
-                len(ex["ca"]), ",".join(str(x[0]) for x in ca[:4]), ",".join(str(x[1]) for x in ca[:4])))
+                len(ex["ca"]), ",".join(str(x[0]) for x in ca[:4]), ",".join(str(x[1]) for x in ca[:4]), 1 if ex.get("quoted") else 0))
         L.append("static const struct exp EXP[NEXP + 1] = {%s%s{0}};" % (",".join(rows), "," if rows else ""))
         L.append("#define NSEC %d" % len(self.secs))
         L.append("static const struct span SEC[NSEC + 1] = {%s%s{0,0}};" % (",".join("{%d,%d}" % s for s in self.secs), "," if self.secs else ""))
         L.append("#define NREL %d" % len(self.rels))
         L.append("static const struct rel REL[NREL + 1] = {%s%s{0,0,0,0,0}};" % (",".join("{%d,%d,%d,%d,%d}" % r for r in self.rels), "," if self.rels else ""))
+        if roundtrip:
+            cn = self.canon()
+            hch = self.comment[0]
+            vals = [(-ord(hch) if isinstance(x, tuple) else x) for x in cn]
+            L.append("#define CLEN %d" % len(vals))
+            L.append("static const short CANON[CLEN + 1] = {%s%s0};" % (",".join(str(v) for v in vals), "," if vals else ""))
+            cends = [i + 1 for i, v in enumerate(vals) if v == -10]
+            L.append("#define CNLINES %d" % len(cends))
+            L.append("static const short CANON_ENDS[CNLINES + 1] = {%s%s0};" % (",".join(str(e) for e in cends), "," if cends else ""))
+            # sections that bear keys, in order of first appearance among the entries
+            ks = []
+            for ex in self.exps:
+                if ex["sec"] >= 0 and ex["sec"] not in ks: ks.append(ex["sec"])
+            L.append("#define NKSEC %d" % len(ks))
+            L.append("static const short KSEC[NKSEC + 1] = {%s%s0};" % (",".join(str(k) for k in ks), "," if ks else ""))
         ends = [i + 1 for i, ch in enumerate(self.tpl) if ch == "\n"]
         if n and not self.tpl.endswith("\n"): ends.append(n)
         L.append("#define NLINES %d" % len(ends))
@@ -230,6 +250,37 @@ class Layout:
         else:
             L.append("#define EXPECT_ERR 0\n#define ERR_LINE 0")
         return "\n".join(L) + "\n"
+
+    def canon(self):
+        """canonical serialisation (DESIGN.md 5.4) of the expected object: list of ints, >= 0 index into the
+        source file (a field character), < 0 minus the literal byte"""
+        out = []
+        lit = lambda t: out.extend(-ord(c) for c in t)
+        span = lambda a, l: out.extend(range(a, a + l))
+        dch = self.delim[0]
+        hpos = None
+        prev = None
+        for i, ex in enumerate(self.exps):
+            g = ex["sec"]
+            if i == 0 or g != prev:
+                if i: lit("\n")
+                if g >= 0:
+                    lit("["); span(*self.secs[g]); lit("]\n")
+            prev = g
+            for (a, l) in ex["cb"]:
+                out.append(("H",)); span(a, l); lit("\n")
+            span(*ex["key"]); lit(dch)
+            if ex["pieces"] is not None:
+                q = ex.get("quoted", False)
+                if q: lit('"')
+                for j, (a, l) in enumerate(ex["pieces"]):
+                    if j: lit("\n")
+                    span(a, l)
+                if q: lit('"')
+            for (a, l) in ex["ca"]:
+                lit(" "); out.append(("H",)); span(a, l); lit("\n")
+            lit("\n")
+        return out
 
     def valid(self):
         return all(len(ex["cb"]) <= 4 and (ex["pieces"] is None or len(ex["pieces"]) <= 4) for ex in self.exps)
@@ -255,7 +306,7 @@ def seps_for(L, rng=None, all_forms=False):
     return forms
 
 
-def random_layout(rng, delim, comment, nlines, want_err=False, python=False, meta=False, only_kinds=None):
+def random_layout(rng, delim, comment, nlines, want_err=False, python=False, meta=False, only_kinds=None, min_comment=0):
     """one random conventional file of nlines lines (plus, if want_err, one malformed line at a random position)"""
     L = Layout(delim, comment, python)
     forms = seps_for(L)
@@ -278,7 +329,7 @@ def random_layout(rng, delim, comment, nlines, want_err=False, python=False, met
         if k == "blank":
             L.blank(rng.choice(["", " ", "\t "]), final_nl=fin if not last else True)
         elif k == "comment":
-            L.comment_line(rng.choice(["", " ", "\t"]), rng.choice([0, 1, 2, 3]), final_nl=fin)
+            L.comment_line(rng.choice(["", " ", "\t"]), rng.choice([c for c in (0, 1, 2, 3) if c >= min_comment]), final_nl=fin)
         elif k == "section":
             same = None
             if L.secs and rng.random() < 0.3:
@@ -297,6 +348,7 @@ def random_layout(rng, delim, comment, nlines, want_err=False, python=False, met
             vk = rng.choice(["empty", "plain1", "plain3", "quoted0", "quoted2", "quoted3"])
             tail = "" if python else rng.choice(["", "", " ", "\t", " Hc", "Hcc", " H", "  Hccc"])
             if L.has_wsp and not L.has_nonwsp and "\t" not in L.delim: tail = tail.replace("\t", " ")
+            if min_comment and tail.endswith("H"): tail = tail + "c"
             if python and vk.startswith("quoted"):
                 vk = "plain3"
             L.entry(rng.choice(["", " ", "\t"]) if not python else "", klen, rng.choice(forms), vk, tail, dup_of=dup, final_nl=fin)
